@@ -13,6 +13,7 @@ open Go Model Model.SysCache
 def Step.contacts : Step → List Contact
   | .done a => a.contacts
   | .reenter _ _ _ _ cs _ => cs
+  | .reenterLocked _ _ _ cs _ => cs
 
 theorem logged_eq (cfg : Config) (cs : List Contact) (h : Header) :
     logged cfg cs h = cs ∨ logged cfg cs h = cs ++ [contactOf h] := by
@@ -24,6 +25,12 @@ theorem logged_of_lt {cfg : Config} {cs : List Contact} (h : Header) (hl : cs.le
   · omega
   · rfl
 
+theorem row304_contacts (d : Disk) (ai : Header) (cs : List Contact) (w : Writer) (sg : Conditional.Surgery)
+    (resp : Resp) (now : Int) : Step.contacts (row304 d ai cs w sg resp now) = cs := by
+  unfold row304
+  repeat' first | split | (dsimp only; split)
+  all_goals rfl
+
 /-- every exit of a writer row after the origin's answer carries the performer's log as it is -/
 theorem afterAnswer_contacts (cfg : Config) (now : Int) (keys : List Key) (rr : Option Range.ReqRange) (d : Disk)
     (ai : Header) (cs : List Contact) (reval : Option (Key × Stored × Int)) (w : Writer)
@@ -31,7 +38,7 @@ theorem afterAnswer_contacts (cfg : Config) (now : Int) (keys : List Key) (rr : 
     Step.contacts (afterAnswer cfg now keys rr d ai cs reval w sg resp) = cs := by
   unfold afterAnswer
   repeat' first | split | (dsimp only; split)
-  all_goals rfl
+  all_goals first | rfl | exact row304_contacts ..
 
 theorem writerRow_contacts (cfg : Config) (origin : Bytes → Option Origin) (now : Int) (req : Request)
     (keys : List Key) (rr : Option Range.ReqRange) (d : Disk) (client ai : Header) (cs : List Contact)
@@ -65,6 +72,17 @@ theorem stepOnce_contacts_prefix (cfg : Config) (origin : Bytes → Option Origi
     · exact List.prefix_refl _
     · exact List.prefix_append _ _
 
+theorem lockedReentry_contacts_prefix (cfg : Config) (origin : Bytes → Option Origin) (now : Int) (req : Request)
+    (d : Disk) (client ai : Header) (cs : List Contact) :
+    cs <+: (lockedReentry cfg origin now req d client ai cs).contacts := by
+  have hl : ∀ h, cs <+: logged cfg cs h := by
+    intro h; rcases logged_eq cfg cs h with e | e <;> rw [e]
+    · exact List.prefix_refl _
+    · exact List.prefix_append _ _
+  unfold lockedReentry
+  repeat' first | split | (dsimp only; split)
+  all_goals first | exact List.prefix_refl _ | exact hl _
+
 /-- the performer's log of a request extends the log it started with: contacts are never forgotten -/
 theorem cachingFunc_contacts_prefix (cfg : Config) (origin : Bytes → Option Origin) (now : Int) (req : Request) :
     ∀ (fuel : Nat) (d : Disk) (client ai : Header) (skip : Bool) (cs : List Contact),
@@ -81,6 +99,9 @@ theorem cachingFunc_contacts_prefix (cfg : Config) (origin : Bytes → Option Or
     · rename_i d' c' ai' s' cs' tag heq
       rw [heq] at hp
       exact List.IsPrefix.trans hp (ih d' c' ai' s' cs')
+    · rename_i d' c' ai' cs' tag heq
+      rw [heq] at hp
+      exact List.IsPrefix.trans hp (lockedReentry_contacts_prefix cfg origin now req d' c' ai' cs')
 
 /-! ### `storage.Get` and `cache.Get` only ever REMOVE files -/
 
